@@ -12,7 +12,7 @@ pub const RULE: &str = "generated (duration or epoch count, step) with steps of 
 
 pub const ASSUMPTIONS: &[&str] = &[
     "where the exact floor or the exact ceil lies outside [MIN, MAX] the statement does not fix whether ceil/round start from the exact or from the saturated neighbour: both answers are accepted there",
-    "operands whose total_nanoseconds() is affected by the open finding KF-total-ns-sign (century field <= -2 with non-zero nanoseconds, for d, the step, |step| or the floored value) are excluded and counted",
+    "failing cases whose operands are affected by the open finding KF-total-ns-sign (century field <= -2 with non-zero nanoseconds, for d, the step, |step| or the floored value) are excluded and counted only when all three answers are exactly what the finding predicts (floor/ceil/round recomputed with total_nanoseconds() as the finding computes it); any other answer there is a violation",
 ];
 
 #[derive(Clone, Debug, Serialize, Deserialize)]
@@ -76,6 +76,21 @@ fn model(d: i128, s: i128) -> Option<Model> {
     Some(Model { floor: clamp(xfloor), ceil: clamp(xceil), round: clamp(xround), xfloor, xceil })
 }
 
+/// floor / ceil / round as the library computes them when total_nanoseconds() answers as the open finding
+/// KF-total-ns-sign describes (the rest of the computation being exact)
+fn kf_prediction(d: Duration, s: Duration) -> (i128, i128, i128) {
+    let step = kf_total_ns(s).abs();
+    let floor = if step == 0 { 0 } else { let t = kf_total_ns(d); clamp(t - t.rem_euclid(step)) };
+    let sabs = mk(clamp(count(s).abs()));
+    let ceil = match kf_total_ns(mk(floor)).checked_add(kf_total_ns(sabs)) {
+        Some(t) => clamp(t),
+        None => DMAX,
+    };
+    let cd = count(d);
+    let round = if clamp(cd - floor) < clamp(clamp(ceil - cd).abs()) { floor } else { ceil };
+    (floor, ceil, round)
+}
+
 fn fcr_known(c: &Fcr) -> Option<&'static str> {
     let d = mk(c.d);
     let s = mk(c.s);
@@ -84,10 +99,22 @@ fn fcr_known(c: &Fcr) -> Option<&'static str> {
     if let Some(m) = model(count(d), count(s)) {
         bad |= reads_bad_total_ns(mk(m.floor)) || reads_bad_total_ns(mk(m.ceil));
     }
-    if bad {
-        Some("KF-total-ns-sign")
-    } else {
-        None
+    let (pf, pc, pr) = kf_prediction(d, s);
+    bad |= reads_bad_total_ns(mk(pf));
+    if !bad {
+        return None;
+    }
+    // known only if all three answers are exactly what the finding predicts
+    let got = match c.scale {
+        None => guard(move || (d.floor(s), d.ceil(s), d.round(s))),
+        Some(sc) => guard(move || {
+            let e = Epoch::from_duration(d, SCALES[sc]);
+            (e.floor(s).duration, e.ceil(s).duration, e.round(s).duration)
+        }),
+    };
+    match got {
+        Ok((f, ce, r)) if canonical(f) && canonical(ce) && canonical(r) && (count(f), count(ce), count(r)) == (pf, pc, pr) => Some("KF-total-ns-sign"),
+        _ => None,
     }
 }
 
@@ -160,10 +187,16 @@ fn approx_strategy() -> BS<Approx> {
 }
 
 fn approx_known(c: &Approx) -> Option<&'static str> {
-    if reads_bad_total_ns(mk(c.d)) {
-        Some("KF-total-ns-sign")
-    } else {
-        None
+    let d = mk(c.d);
+    if !reads_bad_total_ns(d) {
+        return None;
+    }
+    let mag = c.d.abs();
+    let unit = [NS_D, NS_H, NS_MIN, NS_S, 1_000_000, 1_000, 1].into_iter().find(|u| mag >= *u).unwrap_or(1);
+    let (_, _, pr) = kf_prediction(d, mk(unit));
+    match guard(move || d.approx()) {
+        Ok(r) if canonical(r) && count(r) == pr => Some("KF-total-ns-sign"),
+        _ => None,
     }
 }
 
